@@ -265,10 +265,15 @@ def emit(ast) -> str:
                 raise ValueError(k)
 
     e(0, "builtin.module {")
+    if ast.get("core_query"):
+        e(1, "func.func private @snax_cluster_core_idx() -> i32")
     sig = ", ".join([f"%a{i} : {T3}" for i in range(N_ARGS)] + [f"{a} : {t}" for a, t in zip(ARGS, ARG_TYPES)])
     e(1, f"func.func @f({sig}) {{")
     for c in range(3):
         e(2, f"%c{c} = arith.constant {c} : index")
+    if ast.get("core_query"):
+        # the function already asks for its core id, for something that has nothing to do with dispatching
+        e(2, "%cid = func.call @snax_cluster_core_idx() : () -> i32")
     late = {st["buf"] for st in ast["body"] if st["k"] == "alloc"} | set(ast.get("skip_allocs", []))
     for i in range(ast.get("n_allocs", N_ALLOCS)):
         if f"%b{i}" not in late:
